@@ -349,7 +349,7 @@ func genTrOp(t *rapid.T, m *model.Tracker) trOp {
 	case "GetNick", "DelNick":
 		return trOp{Op: op, A: known("n")}
 	case "ReNick":
-		neu := rapid.SampledFrom(c12Nicks[:6]).Draw(t, "neu") // "" as the new name is left open
+		neu := rapid.SampledFrom(c12Nicks).Draw(t, "neu") // the empty name too: a rename has no validation of its own
 		return trOp{Op: op, A: known("old"), B: neu}
 	case "NickInfo":
 		return trOp{Op: op, A: known("n"), B: rapid.SampledFrom([]string{"id", "~u", ""}).Draw(t, "ident"), C: rapid.SampledFrom([]string{"host", "h.example", ""}).Draw(t, "host"), D: rapid.SampledFrom([]string{"Real Name", "r", ""}).Draw(t, "name")}
@@ -545,7 +545,7 @@ func closureOps(nicks, chans []string, rich bool) []trOp {
 		if rich {
 			ops = append(ops, trOp{Op: "NickModes", A: n, B: "+i"}, trOp{Op: "NickModes", A: n, B: "-i"})
 		}
-		for _, neu := range nicks {
+		for _, neu := range ne {
 			ops = append(ops, trOp{Op: "ReNick", A: n, B: neu})
 		}
 	}
